@@ -35,3 +35,7 @@ def run(ctx):
     from ..rules_pattern import module_screen_rule
     ctx.guard(k21_match_overrides, ctx, "C19")
     ctx.guard(module_screen_rule, ctx, "C19.screen-locality", threshold=False)
+    # "also succeeds": the replacement may carry what the original did not -- citations; the only part of the assembly
+    # that reads a module's annotations is the citation rewrite, which must be total on well-formed citations
+    # ('[j]' -> references[j-1], written back as '[i+1]')
+    run_kernels(ctx, ["K13"], "C19")
